@@ -165,6 +165,44 @@ def case_retr_closure(H, g):
         H.reach('C03/%s/retr_reach/path%d' % (g, pn), hyp)
 
 
+def case_identity_history(H, g):
+    """history: an identity element that was updated in place (what every optimizer does to an identity-initialised
+    pose) must not change what the identity constructors return afterwards"""
+    ctor = {'SO3': pp.identity_SO3, 'SE3': pp.identity_SE3, 'RxSO3': pp.identity_RxSO3, 'Sim3': pp.identity_Sim3}[g]
+    ident = [z3.RealVal(v) for v in {'SO3': [0, 0, 0, 1], 'SE3': [0, 0, 0, 0, 0, 0, 1], 'RxSO3': [0, 0, 0, 1, 1],
+                                      'Sim3': [0, 0, 0, 0, 0, 0, 1, 1]}[g]]
+
+    def prog(m):
+        outs = []
+        for args in ((), (2,)):
+            E = ctor(*args, dtype=DT)
+            a, as_ = sym_alg(m, g, 'a', 31)
+            E.add_(a.tensor())                       # in-place retraction of the first identity
+            E2 = ctor(*args, dtype=DT)               # same constructor arguments again
+            X, xs = sym_group(m, g, 'x', 32)
+            E3 = pp.identity_like(E, dtype=DT)
+            outs.append((m.full_terms(E2.tensor()), m.full_terms(E3.tensor()), m.full_terms((E2 @ X).tensor()), xs, args))
+        return outs
+
+    def replay(model):
+        E = ctor(dtype=DT)
+        E.add_(torch.tensor([0.3, -0.2, 0.1, 0.2, 0.4, -0.5, 0.3][:ADIM[g]], dtype=DT))
+        E2 = ctor(dtype=DT)
+        bad = (E2.tensor() - torch.tensor([float(str(v)) for v in ident], dtype=DT)).abs().max().item()
+        return bad > 1e-9, 'identity constructor returned a non-identity element after an in-place update of an earlier identity (max dev %.3g)' % bad
+
+    for ctx, outs in run_paths(H, 'identity_history/' + g, prog):
+        hyp = H.hyps_of(ctx)
+        for e2, e3, e2x, xs, args in outs:
+            k = len(ident)
+            for b in range(len(e2) // k):
+                for i in range(k):
+                    H.prove('C03/%s/identity_after_inplace_update%s[%d]' % (g, args, b * k + i), hyp, e2[b * k + i] == ident[i],
+                            replay=replay, key='C03/%s/identity_history' % g)
+                    H.prove('C03/%s/identity_like_after_inplace_update%s[%d]' % (g, args, b * k + i), hyp, e3[b * k + i] == ident[i],
+                            replay=replay, key='C03/%s/identity_history' % g)
+
+
 def run(H):
     H.assumptions += ['exact real arithmetic (round-off outside the claim)', 'group inputs are valid: |q|=1, s>0',
                       'float constants read as their intended rationals']
@@ -177,6 +215,7 @@ def run(H):
         try:
             case_laws(H, g)
             case_retr_closure(H, g)
+            case_identity_history(H, g)
         except Exception as e:
             import traceback
             traceback.print_exc()
